@@ -81,88 +81,42 @@ theorem pow_exponent_signed {w} (b : BitVec w) (h : 0 ≤ b.toInt) : (exponent t
     simp [this]
   · simp only [h0, if_false]; omega
 
-/-! ## shifts: every helper, every regular right operand -/
+/-! ## shifts: every helper, every integer right operand -/
 
-/-- `<<`, `>>`, `<<<`, `>>>` on a sized integer with a right operand of **any** integer kind equal
-the ideal shift by the exact count: left shift, arithmetic right shift on signed types, logical on
+/-- `<<`, `>>`, `<<<`, `>>>` on a sized integer with a right operand of **any** integer kind and
+**any** value (every `SmallInt`, every sized value, every `BigInt` of whatever magnitude) equal the
+ideal shift by the exact count: left shift, arithmetic right shift on signed types, logical on
 unsigned ones and for `<<< >>>`; a negative count reverses the direction; counts of any size
-saturate (0, or the sign fill).  `Regular` excludes only the most negative value of a signed count
-type (see `min_count_panics_witness`) and `*BigInt` counts outside the word range. -/
-theorem shift_spec {w} (op : ShOp) (signed : Bool) (a : BitVec w) (r : ROp) (hr : r.Regular) :
-    shift op signed a r = .ok (ideal op signed a r.val) := by
+saturate (0, or the sign fill). In particular no Go panic and no error. -/
+theorem shift_spec {w} (hw : w ≤ 64) (op : ShOp) (signed : Bool) (a : BitVec w) (r : ROp)
+    (hr : r.kind ≠ .other) : shift op signed a r = .ok (ideal op signed a r.val) := by
   obtain ⟨k, v⟩ := r
-  have e63 : (2 : Int) ^ (64 - 1) = 2 ^ 63 := by decide
-  have e31 : (2 : Int) ^ (32 - 1) = 2 ^ 31 := by decide
-  have e15 : (2 : Int) ^ (16 - 1) = 2 ^ 15 := by decide
-  have e7 : (2 : Int) ^ (8 - 1) = 2 ^ 7 := by decide
-  cases k <;> simp only [ROp.Regular] at hr
-  case bigInt =>
-    have hf := fits64_of v hr
-    cases op <;> cases signed <;>
-      simp only [shift, ideal, Bool.false_eq_true, if_false, if_true, leftShift_big _ _ _ hf, rightShift_big _ _ _ hf,
-        logicalLeftShift_big _ _ hf, logicalRightShift_big _ _ hf]
-    all_goals first
-      | exact leftShift_signedKind _ a .smallInt 64 v rfl (by decide) (by omega)
-      | exact rightShift_signedKind _ a .smallInt 64 v rfl (by decide) (by omega)
-      | exact logicalLeftShift_signedKind a .smallInt 64 v rfl (by decide) (by omega) (by omega)
-      | exact logicalRightShift_signedKind a .smallInt 64 v rfl (by decide) (by omega) (by omega)
-  case smallInt =>
-    cases op <;> cases signed <;> simp only [shift, ideal, Bool.false_eq_true, if_false, if_true]
-    all_goals first
-      | exact leftShift_signedKind _ a .smallInt 64 v rfl (by decide) (by omega)
-      | exact rightShift_signedKind _ a .smallInt 64 v rfl (by decide) (by omega)
-      | exact logicalLeftShift_signedKind a .smallInt 64 v rfl (by decide) (by omega) (by omega)
-      | exact logicalRightShift_signedKind a .smallInt 64 v rfl (by decide) (by omega) (by omega)
-  case i64 =>
-    cases op <;> cases signed <;> simp only [shift, ideal, Bool.false_eq_true, if_false, if_true]
-    all_goals first
-      | exact leftShift_signedKind _ a .i64 64 v rfl (by decide) (by omega)
-      | exact rightShift_signedKind _ a .i64 64 v rfl (by decide) (by omega)
-      | exact logicalLeftShift_signedKind a .i64 64 v rfl (by decide) (by omega) (by omega)
-      | exact logicalRightShift_signedKind a .i64 64 v rfl (by decide) (by omega) (by omega)
-  case i32 =>
-    cases op <;> cases signed <;> simp only [shift, ideal, Bool.false_eq_true, if_false, if_true]
-    all_goals first
-      | exact leftShift_signedKind _ a .i32 32 v rfl (by decide) (by omega)
-      | exact rightShift_signedKind _ a .i32 32 v rfl (by decide) (by omega)
-      | exact logicalLeftShift_signedKind a .i32 32 v rfl (by decide) (by omega) (by omega)
-      | exact logicalRightShift_signedKind a .i32 32 v rfl (by decide) (by omega) (by omega)
-  case i16 =>
-    cases op <;> cases signed <;> simp only [shift, ideal, Bool.false_eq_true, if_false, if_true]
-    all_goals first
-      | exact leftShift_signedKind _ a .i16 16 v rfl (by decide) (by omega)
-      | exact rightShift_signedKind _ a .i16 16 v rfl (by decide) (by omega)
-      | exact logicalLeftShift_signedKind a .i16 16 v rfl (by decide) (by omega) (by omega)
-      | exact logicalRightShift_signedKind a .i16 16 v rfl (by decide) (by omega) (by omega)
-  case i8 =>
-    cases op <;> cases signed <;> simp only [shift, ideal, Bool.false_eq_true, if_false, if_true]
-    all_goals first
-      | exact leftShift_signedKind _ a .i8 8 v rfl (by decide) (by omega)
-      | exact rightShift_signedKind _ a .i8 8 v rfl (by decide) (by omega)
-      | exact logicalLeftShift_signedKind a .i8 8 v rfl (by decide) (by omega) (by omega)
-      | exact logicalRightShift_signedKind a .i8 8 v rfl (by decide) (by omega) (by omega)
-  all_goals
-    cases op <;> cases signed <;> simp only [shift, ideal, Bool.false_eq_true, if_false, if_true]
-    all_goals first
-      | exact leftShift_unsignedKind _ a _ v rfl hr.1
-      | exact rightShift_unsignedKind _ a _ v rfl hr.1
-      | exact logicalLeftShift_unsignedKind a _ v rfl hr.1
-      | exact logicalRightShift_unsignedKind a _ v rfl hr.1 (by omega)
+  cases op <;> cases signed <;> simp only [shift, ideal, Bool.false_eq_true, if_false, if_true]
+  all_goals first
+    | exact leftShift_spec hw _ a k v hr
+    | exact rightShift_spec hw _ a k v hr
+    | exact logicalLeftShift_spec hw a k v hr
+    | exact logicalRightShift_spec hw a k v hr
 
-/-- non-vacuity: regular operands exist in every kind, and the ideal shift is what one expects -/
-example : (ROp.mk .i8 (-127)).Regular ∧ (ROp.mk .u8 255).Regular ∧ (ROp.mk .bigInt (2^62)).Regular := by
-  refine ⟨?_, ?_, ?_⟩ <;> simp [ROp.Regular]
+/-- what the ideal shift is, in arithmetic terms (signed left operand, arithmetic right shift):
+`a >> n` is the floor of `a / 2^n`; `a << n` is `a * 2^n` wrapped -/
+theorem ideal_shr_floor {w} (a : BitVec w) (n : Nat) :
+    (ideal .shr true a (n : Int)).toInt = a.toInt >>> n := by
+  simp only [ideal, Bool.not_true]
+  rw [idealShift_right _ a n (by omega)]
+  simp [BitVec.toInt_sshiftRight]
+
+theorem ideal_shl_wrap {w} (s : Bool) (a : BitVec w) (n : Nat) :
+    (ideal .shl s a (n : Int)).toNat = (a.toNat * 2 ^ n) % 2 ^ w := by
+  simp only [ideal]
+  rw [idealShift_nonneg _ a n (by omega)]
+  simp [BitVec.toNat_shiftLeft, Nat.shiftLeft_eq]
+
+/-- non-vacuity / sanity of the reference on concrete cases, including the counts that used to panic -/
 example : shift .shr true (0x80#8) ⟨.u8, 7⟩ = .ok 0xFF#8 ∧ shift .lshr true (0x80#8) ⟨.u8, 7⟩ = .ok 0x01#8 ∧
-    shift .shl true (0x01#8) ⟨.i8, -1⟩ = .ok 0x00#8 ∧ shift .lshl true (0x81#8) ⟨.uint, 1⟩ = .ok 0x02#8 := by decide
-
-/-- the full statement "no accepted operand makes the VM panic" fails at exactly the most negative
-count of a signed type: Go's `-r` wraps and the shift count is negative (kernel-checked witness) -/
-def ShiftNeverPanics : Prop :=
-  ∀ (w : Nat) (op : ShOp) (signed : Bool) (a : BitVec w) (r : ROp), r.kind ≠ .other → shift op signed a r ≠ .goPanic
-
-theorem min_count_panics_witness : ¬ ShiftNeverPanics := by
-  intro h
-  exact h 8 .shl true 1#8 ⟨.i8, -128⟩ (by decide) (by decide)
+    shift .shl true (0x01#8) ⟨.i8, -1⟩ = .ok 0x00#8 ∧ shift .lshl true (0x81#8) ⟨.uint, 1⟩ = .ok 0x02#8 ∧
+    shift .shl true (0x81#8) ⟨.i8, -128⟩ = .ok 0xFF#8 ∧ shift .shr true (0x81#8) ⟨.bigInt, 2^64⟩ = .ok 0xFF#8 := by
+  decide
 
 /-! ## an operand the checker admits never raises the bitshift type error -/
 
